@@ -6,7 +6,7 @@ From PV.Base Require Import Sums.
 From PV.Model Require Import Grid.
 From PV.Gen Require Import GridK.
 From PV.Base Require Import F32.
-From PV.Proofs Require Import Grid GridGen F32Error CosError.
+From PV.Proofs Require Import Grid GridGen F32Error CosError EucError.
 Import ListNotations.
 Close Scope Q_scope. Close Scope Qc_scope. Close Scope Z_scope. Close Scope string_scope.
 Open Scope nat_scope.
@@ -115,3 +115,12 @@ Theorem C12_clamp_nonexpansive x e : (-1 <= e -> e <= 1 ->
   Qabs.Qabs (clamp x - e) <= Qabs.Qabs (x - e))%Q.
 Proof. exact (clamp_nonexpansive x e). Qed.
 Print Assumptions C12_clamp_nonexpansive.
+
+(* accuracy of the Euclidean kernel, squared domain: in d dimensions (with
+   (d + 4) * 2^-23 <= 1) the accumulated binary32 sum of squares is within
+   (d + 4) * 2^-23 relative of the exact sum of squared coordinate differences *)
+Theorem C12_euclidean_error x d i j : ((EucError.qn d + 4) * (2 * CosError.u) <= 1)%Q ->
+  let exact := exact_from x i j 0%Q (seq 0 d) in
+  (Qabs.Qabs (euc_sum 32 x (seq 0 d) i j - exact) <= (EucError.qn d + 4) * (2 * CosError.u) * exact)%Q.
+Proof. exact (euc_sum_error x d i j). Qed.
+Print Assumptions C12_euclidean_error.
